@@ -46,6 +46,10 @@ def TriOp.name : TriOp K → String
 
 def vtxOfList (v : List (V3 K)) : Nat → V3 K := fun i => v.getD i ⟨0, 0, 0⟩
 
+/-- dimension of a sparse matrix built from `keys` without an explicit shape: largest index + 1 (0 if empty) -/
+def adjDim (keys : List (Nat × Nat)) : Nat :=
+  keys.foldl (fun m k => max m (max k.1 k.2 + 1)) 0
+
 /-- new `(v, t)` computed by an operation; `none` = the operation raised (state unchanged) -/
 def triEffect (s : TriState K) : TriOp K → Option (List (V3 K) × List Tri)
   | .orient =>
@@ -58,6 +62,9 @@ def triEffect (s : TriState K) : TriOp K → Option (List (V3 K) × List Tri)
     some (if r.changed then r.keep.map (fun i => s.v.getD i ⟨0, 0, 0⟩) else s.v, tn)
   | .normalize => some (Measures.normalize s.v (vtxOfList s.v) s.t, s.t)
   | .smooth n =>
+    -- `adj_sym` has no explicit shape: its dimension is the largest cached index + 1; the product with the
+    -- (len(v) x 3) coordinate array raises ValueError when trailing vertices are unused (or the cache is stale)
+    if adjDim s.symK != s.v.length then none else
     let f := s.v.map fun p => [p.x, p.y, p.z]
     let g := Transfer.smooth s.symK (Measures.vertexAreas (vtxOfList s.v) s.t) f n
     some (g.map fun r => ⟨r.getD 0 0, r.getD 1 0, r.getD 2 0⟩, s.t)
